@@ -215,7 +215,7 @@ fn fp_of_debug(v: &Value) -> u64 {
 
 /// Run every encoder on the value; any panic is a violation.
 pub fn encode_all(ctx: &mut Ctx, v: &Value, origin: &str) {
-    let encoders: [(&str, Box<dyn Fn(&Value)>); 7] = [
+    let encoders: [(&str, Box<dyn Fn(&Value)>); 8] = [
         ("to_zinc_string", Box::new(|v| {
             let _ = to_zinc_string(v);
         })),
@@ -232,6 +232,11 @@ pub fn encode_all(ctx: &mut Ctx, v: &Value, origin: &str) {
             use std::fmt::Write;
             let mut s = String::new();
             let _ = write!(s, "{}", v);
+        })),
+        // what users actually call: to_string()/format! panic if the Display impl returns an error
+        ("to_string", Box::new(|v| {
+            let _ = v.to_string();
+            let _ = format!("{v}");
         })),
         ("typed", Box::new(|v| match v {
             Value::Ref(r) => {
